@@ -179,3 +179,64 @@ func RSpec() *ref.Struct {
 	}
 	return s
 }
+
+// DPSpecs returns the specs of the recursive partial-default type DP and of DPOuter.
+func DPSpecs() (*ref.Struct, *ref.Struct) {
+	d := &ref.Struct{Name: "DP", GoType: reflect.TypeOf(DP{}), HasInit: true}
+	O := ref.ReqOptional
+	p := StPtr(d)
+	fs := []*ref.Field{
+		{Name: "A", ID: 1, Req: O, Type: Sc(ref.KI32), Default: ref.Int(ref.KI32, 5)},
+		{Name: "B", ID: 2, Req: O, Type: Sc(ref.KString), Default: ref.Str("")},
+		{Name: "C", ID: 3, Req: O, Type: &ref.Type{Kind: ref.KString, Ptr: true}},
+		{Name: "L", ID: 4, Req: O, Type: ListOf(Sc(ref.KI32)), Default: ref.List(ref.KList, ref.Int(ref.KI32, 1), ref.Int(ref.KI32, 2))},
+		{Name: "Kids", ID: 5, Req: O, Type: ListOf(p), Default: ref.NilOf(ref.KList)},
+		{Name: "Next", ID: 6, Req: O, Type: p},
+		{Name: "ByVal", ID: 7, Req: O, Type: MapOf(Sc(ref.KString), StVal(d)), Default: ref.NilOf(ref.KMap)},
+		{Name: "Vals", ID: 8, Req: O, Type: ListOf(StVal(d)), Default: ref.NilOf(ref.KList)},
+	}
+	for _, f := range fs {
+		sf, _ := d.GoType.FieldByName(f.Name)
+		f.GoIdx = sf.Index[0]
+		d.Fields = append(d.Fields, f)
+	}
+	o := StaticSpec(reflect.TypeOf(DPOuter{}), "DPOuter", []*ref.Field{
+		{Name: "P", ID: 1, Req: O, Type: p}, {Name: "M", ID: 2, Req: O, Type: MapOf(Sc(ref.KI32), p)},
+	})
+	return d, o
+}
+
+// RWideSpec returns the spec of RWide.
+func RWideSpec() *ref.Struct {
+	s := &ref.Struct{Name: "RWide", GoType: reflect.TypeOf(RWide{})}
+	rt := s.GoType
+	for i := 0; i < rt.NumField(); i++ {
+		sf := rt.Field(i)
+		var t *ref.Type
+		switch sf.Type.Kind() {
+		case reflect.String:
+			t = Sc(ref.KString)
+		case reflect.Ptr:
+			t = StPtr(s)
+		case reflect.Slice:
+			switch sf.Type.Elem().Kind() {
+			case reflect.Uint8:
+				t = Sc(ref.KBinary)
+			case reflect.String:
+				t = ListOf(Sc(ref.KString))
+			default:
+				t = ListOf(Sc(ref.KI32))
+			}
+		}
+		var id int
+		for _, c := range sf.Tag.Get("frugal") {
+			if c < '0' || c > '9' {
+				break
+			}
+			id = id*10 + int(c-'0')
+		}
+		s.Fields = append(s.Fields, &ref.Field{Name: sf.Name, GoIdx: i, ID: uint16(id), Req: ref.ReqOptional, Type: t})
+	}
+	s.SortFields()
+	return s
+}
